@@ -5,7 +5,7 @@
        every schedule.   (c) Model/ObjPool.v: the object pool. *)
 From Coq Require Import List NArith Arith Permutation Bool String.
 From RareV Require Import Base.Hex Model.Batch Model.Pipeline Model.AggLoop Model.Sync Model.ObjPool
-  Proofs.PipelineProof Proofs.AggLoopProof Proofs.SyncProof Proofs.ObjPoolProof Gen.GenSync Gen.GenOrder Model.Skel Gen.GenSkel.
+  Proofs.PipelineProof Proofs.AggLoopProof Proofs.SyncProof Proofs.ObjPoolProof Proofs.RWLock Gen.GenSync Gen.GenOrder Model.Skel Gen.GenSkel.
 Import ListNotations.
 
 (* (a) a well-formed trace (mutual exclusion as the runtime provides it) in which every location
@@ -24,6 +24,22 @@ Theorem C05_discipline : table_ok sync_table sync_nlocs = true.
 Proof. vm_compute. reflexivity. Qed.
 Theorem C05_discipline_nonempty : 15 <= sync_nlocs /\ 40 <= List.length sync_table.
 Proof. vm_compute. split; repeat constructor. Qed.
+
+(* translator obligation (termination clause): no mutex of these types is acquired - directly or through a
+   call within the package - by a goroutine that already holds it. Go's locks are not re-entrant; for the
+   read side of an RWMutex (pkg/logger) the failure needs a writer arriving in between, which
+   helpers.RunAggregationLoop supplies: its first statement is logger.DeferLogs (mux.Lock) while reader
+   goroutines may be logging an open or read error. C05_reentrant_rlock_deadlocks (Proofs/RWLock.v, a model
+   of the runtime's writer-preferring RWMutex) states what would happen: the reader and the writer are
+   blocked for ever whatever the other goroutines do - the reader before its deferred wg.Done, so the
+   batch channel never closes and the final render never happens. *)
+Theorem C05_no_reentrant_lock : sync_reentrant = [].
+Proof. vm_compute. reflexivity. Qed.
+Theorem C05_reentrant_rlock_deadlocks : forall g w l s s',
+  stuck g w s -> Forall (fun p => fst p <> g /\ fst p <> w) l -> run s l = Some s' ->
+  RWLock.step s' g ARLock = None /\ RWLock.step s' w AAcquire = None.
+Proof. exact reentrant_rlock_deadlocks. Qed.
+Print Assumptions C05_reentrant_rlock_deadlocks.
 
 (* hence: no data race in any trace that obeys the extracted table *)
 Theorem C05_race_free : forall tr, wf tr -> obeys sync_table tr -> locs_below tr sync_nlocs -> ~ race tr.
